@@ -13,6 +13,7 @@ var intrinsics = map[string]bool{
 	"math.Float64bits": true, "math.Float32bits": true, "math.Float64frombits": true, "math.Float32frombits": true,
 	"math.IsNaN": true, "math.NaN": true, "math.Inf": true, "math.IsInf": true, "math.Abs": true,
 	"(binary.bigEndian).Uint16": true, "(binary.bigEndian).Uint32": true, "(binary.bigEndian).Uint64": true,
+	"errors.Is": true, "errors.Join": true,
 	"(binary.bigEndian).PutUint32": true, "(binary.bigEndian).PutUint64": true, "(binary.bigEndian).PutUint16": true,
 }
 
@@ -24,6 +25,24 @@ func (g *gen) doIntrinsic(x *ssa.Call, full string) bool {
 	}
 	args := x.Call.Args
 	switch full {
+	case "errors.Is":
+		e, t := g.operand(args[0]), g.operand(args[1])
+		g.declare("errIs", "(declare-fun errIs (Err Err) Bool)")
+		g.setVal(x, and(not(sx("=", e.S, "errnil")), sx("errIs", e.S, t.S)))
+	case "errors.Join":
+		// variadic: the result is nil exactly when every argument is nil
+		n, ok := constLenOfSlice(args[0])
+		r := g.freshVal(x)
+		if !ok {
+			return true
+		}
+		sl := g.operand(args[0])
+		h := g.heapSlice(sErr)
+		var nils []string
+		for k := int64(0); k < n; k++ {
+			nils = append(nils, sx("=", sx("select", sx("select", g.comp(h, ""), sx("s.reg", sl.S)), g.idxAdd(sx("s.off", sl.S), g.idxLit(k))), "errnil"))
+		}
+		g.assume(sx("=", sx("=", r.S, "errnil"), and(nils...)))
 	case "math.Float64bits", "math.Float32bits":
 		f := g.operand(args[0])
 		r := g.freshVal(x)
